@@ -235,6 +235,11 @@ func c08Run(c *Ctx) {
 				return
 			}
 			cs := &expCase{built: *b, Opts: expOpts{Cont: cont}, FailLoads: fail, MapBound: 1}
+			// every other case with refused documents answers with half of the document instead of an error:
+			// a document that cannot be decoded is as missing as one that cannot be loaded
+			if len(fail) > 0 && n%2 == 1 {
+				cs.Garble = true
+			}
 			c.Res.States++
 			o := errorsCheck(c, cs)
 			c.Res.Evaluations++
